@@ -455,4 +455,59 @@ Section SetAlgProofs.
   Proof.
     revert s. induction l as [|x l IH]; intros s H; cbn; [exact H|]. apply IH, nodup_sdel, H.
   Qed.
+
+  (* ---------- value semantics: the algorithms respect == ---------- *)
+
+  Definition R (x y : A) : Prop := eqb x y = true.
+
+  Lemma eqb_congr2 k k' x x' : R k k' -> R x x' -> eqb k x = eqb k' x'.
+  Proof.
+    unfold R. intros H1 H2. rewrite (eqb_congr_r _ _ k H2).
+    rewrite (eqb_sym k x'), (eqb_sym k' x'). apply eqb_congr_r, H1.
+  Qed.
+
+  Lemma mem_F2 s s' x x' : Forall2 R s s' -> R x x' -> mem x s = mem x' s'.
+  Proof.
+    intros H Hx. induction H as [|k k' s s' Hk Hs IH]; [reflexivity|].
+    rewrite !mem_cons, IH, (eqb_congr2 _ _ _ _ Hk Hx). reflexivity.
+  Qed.
+
+  Lemma filter_F2 (f f' : A -> bool) s s' :
+    Forall2 R s s' -> (forall a a', R a a' -> f a = f' a') ->
+    Forall2 R (filter f s) (filter f' s').
+  Proof.
+    intros H Hf. induction H as [|k k' s s' Hk Hs IH]; cbn; [constructor|].
+    rewrite (Hf _ _ Hk). destruct (f' k'); [constructor; assumption|assumption].
+  Qed.
+
+  Lemma nodup_F2 s s' : Forall2 R s s' -> NoDupE s -> NoDupE s'.
+  Proof.
+    intros H. induction H as [|k k' s s' Hk Hs IH]; intros Hn; [constructor|].
+    inversion Hn as [|? ? Hm Hn']; subst. constructor; [|apply IH, Hn'].
+    rewrite <- (mem_F2 s s' k k' Hs Hk). exact Hm.
+  Qed.
+
+  Lemma alg_order_F2 a s s' o o' :
+    Forall2 R s s' -> Forall2 R o o' -> Forall2 R (alg_order a s o) (alg_order a s' o').
+  Proof.
+    intros Hs Ho.
+    assert (Fo : forall x x', R x x' -> mem x o = mem x' o') by (intros; apply mem_F2; assumption).
+    assert (Fs : forall x x', R x x' -> mem x s = mem x' s') by (intros; apply mem_F2; assumption).
+    destruct a; cbn [alg_order].
+    - apply Forall2_app; [exact Hs|]. apply filter_F2; [exact Ho|]. intros; f_equal; auto.
+    - apply filter_F2; [exact Hs|auto].
+    - apply filter_F2; [exact Hs|]. intros; f_equal; auto.
+    - apply Forall2_app; apply filter_F2; try assumption; intros; f_equal; auto.
+  Qed.
+
+  (* replacing every member of the operands by an equal element (another spelling of the same
+     record) changes the result only by the same replacement, position by position *)
+  Theorem salg_value_semantics a s s' o o' :
+    NoDupE s -> NoDupE o -> Forall2 R s s' -> Forall2 R o o' ->
+    Forall2 R (salg_g a s o false) (salg_g a s' o' false).
+  Proof.
+    intros Hs Ho Rs Ro.
+    rewrite !salg_order; try assumption; try (eapply nodup_F2; eassumption).
+    apply alg_order_F2; assumption.
+  Qed.
 End SetAlgProofs.
